@@ -40,18 +40,15 @@ func (e *Enc) loopCandidates(f *Frame, li *loopInfo) []*Clause {
 			pn = p.Name()
 		}
 		srt := f.sortFor(p)
-		// entry value, when unique
-		var init ssa.Value
-		for j, pred := range h.Preds {
-			if !li.body[pred] {
-				if init == nil {
-					init = p.Edges[j]
-				} else if init != p.Edges[j] {
-					init = nil
-					break
-				}
+		// value on entry to the loop (merged over the entry edges)
+		entryOf := func(f *Frame) (Term, bool) {
+			if m := f.entryVals[h]; m != nil {
+				t, ok := m[p]
+				return t, ok && t.S != ""
 			}
+			return Term{}, false
 		}
+		hasInit := true
 		switch srt {
 		case SInt:
 			if b, ok := p.Type().Underlying().(*types.Basic); !ok || b.Info()&types.IsInteger == 0 {
@@ -64,15 +61,15 @@ func (e *Enc) loopCandidates(f *Frame, li *loopInfo) []*Clause {
 					return ge(v, intLit(lo)), ok
 				})
 			}
-			if init != nil {
-				if _, isConst := init.(*ssa.Const); !isConst {
-					iv := init
-					addC(fmt.Sprintf("%s >= init", pn), func(f *Frame, get func(ssa.Value) (Term, bool), st *State) (Term, bool) {
-						v, ok := get(p)
-						i, ok2 := get(iv)
-						return ge(v, i), ok && ok2
-					})
-				}
+			if hasInit {
+				addC(fmt.Sprintf("%s >= entry(%s)", pn, pn), func(f *Frame, get func(ssa.Value) (Term, bool), st *State) (Term, bool) {
+					v, ok := get(p)
+					i, ok2 := entryOf(f)
+					if ok2 && i.Sort != SInt {
+						return tTrue, false
+					}
+					return ge(v, i), ok && ok2
+				})
 			}
 		case SBV:
 			if isFlagType(p.Type()) || isUnsigned(p.Type()) {
@@ -91,20 +88,18 @@ func (e *Enc) loopCandidates(f *Frame, li *loopInfo) []*Clause {
 				v, ok := get(p)
 				return ge(slLen(v), intLit(1)), ok
 			})
-			if init != nil {
-				iv := init
-				addC(fmt.Sprintf("len(%s) >= len(init)", pn), func(f *Frame, get func(ssa.Value) (Term, bool), st *State) (Term, bool) {
+			if hasInit {
+				addC(fmt.Sprintf("len(%s) >= len(entry(%s))", pn, pn), func(f *Frame, get func(ssa.Value) (Term, bool), st *State) (Term, bool) {
 					v, ok := get(p)
-					i, ok2 := get(iv)
+					i, ok2 := entryOf(f)
 					return ge(slLen(v), slLen(i)), ok && ok2
 				})
 			}
 		case SStr:
-			if init != nil {
-				iv := init
-				addC(fmt.Sprintf("len(%s) <= len(init)", pn), func(f *Frame, get func(ssa.Value) (Term, bool), st *State) (Term, bool) {
+			if hasInit {
+				addC(fmt.Sprintf("len(%s) <= len(entry(%s))", pn, pn), func(f *Frame, get func(ssa.Value) (Term, bool), st *State) (Term, bool) {
 					v, ok := get(p)
-					i, ok2 := get(iv)
+					i, ok2 := entryOf(f)
 					return le(sLen(v), sLen(i)), ok && ok2
 				})
 			}
